@@ -401,6 +401,23 @@ Proof.
   apply apply_order_irrelevant_lem; [exact Hs|apply writelog_keys_nodup_lem|exact Hp].
 Qed.
 
+(* whatever a database serves for a root (any backend, any position among
+   the candidates of its version, before or after finalization) is the commit
+   log, hence correct; refusal is the only alternative *)
+Lemma serve_is_commit_log b seq f wl wl' : serve b seq f wl = Some wl' -> wl' = wl.
+Proof.
+  unfold serve. destruct wl as [|e r]; [discriminate|].
+  destruct f; [destruct b; [|destruct (seq =? 0)]| |]; congruence.
+Qed.
+
+Lemma served_fork_log_correct_lem old ops b seq f wl' :
+  sorted old ->
+  serve b seq f (commit_writelog (run_batch old ops)) = Some wl' ->
+  apply_writelog old wl' = contents (run_batch old ops).
+Proof.
+  intros Hs H. apply serve_is_commit_log in H. subst wl'. apply writelog_correct_lem. exact Hs.
+Qed.
+
 (* ---------- hashed write log ---------- *)
 Lemma revive_commit new l :
   (forall k e, In (k, e) l -> forall v, pe_value e = Some v -> get k new = Some v) ->
